@@ -119,6 +119,11 @@ def check_fresh_defaults(ctx):
             from engine.defuse import reaching_defs
             rd = reaching_defs(fn)
             for d in rd.reaching(n, arg.id) if isinstance(arg, ast.Name) else []:
+                if d.kind == "assign" and (
+                        (isinstance(d.value, ast.Subscript) and isinstance(d.value.slice, ast.Slice) and d.value.slice.lower is None
+                         and d.value.slice.upper is None) or
+                        (isinstance(d.value, (ast.List, ast.Dict, ast.Set, ast.Tuple, ast.ListComp, ast.DictComp)))):
+                    continue    # x[:], [*x], {**x}, comprehensions: new containers
                 if d.kind == "assign" and isinstance(d.value, ast.Call):
                     tg = an.targets(fn, g.nodes_for(d.value)[0]) if g.nodes_for(d.value) else []
                     if tg and all(an.returns_fresh(t) for t in tg):
